@@ -258,7 +258,7 @@ var targets = []target{
 		from: "if n := buf.Len(); n >= 4", to: "var err = c.cb(", liveOut: []string{"buf"},
 		doc: "the removal of the sync-flush trailer 00 00 ff ff from the aggregated output of a streamed compressed message, before the last frame is built"},
 	{pkg: "gws", fn: "Conn.doWriteFile", lean: "Conn_doWriteFile_frame",
-		fromLit: "var cb = func(", to: "err = internal.WriteN(c.conn, frame.Bytes())",
+		fromLit: "var cb = func(", to: "err = internal.WriteN(c.conn,",
 		skip:    []string{`verifSched("f.check", c)`},
 		oracles: map[string]string{"c.isClosed()": "closed"},
 		calls:   map[string]bool{"c.genFrame": true},
